@@ -13,7 +13,12 @@ def run(ctx):
                 "right key id followed by 0..40 bytes, block-aligned and unaligned garbage and sealed random plaintexts under the right key id, "
                 "damaged data through the real transport.ReadMsg (loopback connection, harness = server) and DeserializeUnencrypted; "
                 "valid server-sealed and unencrypted messages with msg_ids over the whole int64 range ({0, 2^63, -1, 2^63-1, realistic and random upper halves, "
-                "bit 63 clear/set} x low bits 00/01/10/11) through DeserializeEncrypted, DeserializeUnencrypted and ReadMsg: a message iff the low bits are 01 or 11. Every case runs on the real code under recover(); direct oracle: "
+                "bit 63 clear/set} x low bits 00/01/10/11) through DeserializeEncrypted, DeserializeUnencrypted and ReadMsg: a message iff the low bits are 01 or 11; "
+                "multi-byte alterations of auth_key_id and msg_key in which xor/sum/and/or folds of the differences cancel (same bit in 2 and 4 bytes - all pairs of "
+                "key-id bytes, x every bit in thorough -, swaps, equal masks, masks a,b,a^b, +d/-d, every byte xor ff/01/80/55, rotations, reversal, all-zero, all-ff): refused; "
+                "SEQUENCES of 8-10 receive calls in one process (valid A, valid smaller, equal size, forged of A's size, other auth key, valid larger, larger garbage, "
+                "smaller again, equal to the largest; directly and through ReadMsg): every returned message OBJECT and every input buffer is kept and re-read "
+                "after each later call - must still print as returned / as handed in, and as the model (a function of that call alone) says. Every case runs on the real code under recover(); direct oracle: "
                 "damaged => error (never a message, never a panic) - except that a bit flip may be accepted when it yields exactly the sealed message "
                 "(a flip that only garbles plaintext padding, which MTProto 1.0 does not authenticate; counted in altered_packets_accepted_with_the_sealed_message); the outcome class and, when accepted, all fields are compared with the extracted "
                 "open_client for the first ~2900 cases (thorough 40000). non-trivial = distinct packets carrying the right key id (they reach decryption, "
@@ -22,7 +27,9 @@ def run(ctx):
     })
     cov = C.proof_coverage(
         pr, "make -f Makefile.coq theories/Props/C04.vo (coqc 8.16.1) in /verif/coq",
-        ["C04_accept_implies_checks and C04_no_panic use no hypothesis on SHA-1 or AES at all (arbitrary functions); C04_no_panic asks for an "
+        ["C04_history_independent is about the model (a pure function); that the Go code keeps no state and returns no slice aliasing a buffer "
+         "that later calls write to is tied to it by the sequence correspondence only",
+         "C04_accept_implies_checks and C04_no_panic use no hypothesis on SHA-1 or AES at all (arbitrary functions); C04_no_panic asks for an "
          "auth key of at least 136 bytes (generateAESIGE panics on shorter ones; the session key is 256 bytes)",
          "C04_same_message_partial: explicit hypothesis that msg_key (SHA-1 bits 32..159) does not collide on the two specific strings involved; "
          "'every altered packet is refused' in full needs an idealised hash and is covered by the enumeration only",
